@@ -13,7 +13,7 @@ acceptance, never another exception).
 
 from dsim import gen, pipe
 from dsim import refmodel as R
-from dsim.actors import read_all, exc_summary
+from dsim.actors import read_all, exc_summary, header_short_reads
 from dsim.world import World
 
 ID = 'C11'
@@ -146,6 +146,7 @@ def generate(rng, tier, cls):
             'crlf': rng.chance(0.25),
             'own_lf': rng.chance(0.1),
             'stream': gen.gen_stream(rng)[0],
+            'short_hdr': rng.randint(0, 999) if rng.chance(0.12) else None,
             'block_size': rng.choice([None, None, 1, 5, 97])}
 
 
@@ -230,7 +231,12 @@ def execute(scn, L):
     recs, end, exc = read_all(w, data, block_size=scn.get('block_size'),
                               stream=scn.get('stream') if scn.get('stream')
                               in ('sim', 'bytesio', 'buffered') else 'sim',
-                              buf=64, actor='R')
+                              buf=64, actor='R',
+                              extras={'short_at': header_short_reads(
+                                  data, scn['short_hdr'])}
+                              if isinstance(scn.get('short_hdr'), int)
+                              and b'\r' not in optstr.replace(b'\r\n', b'')
+                              else None)
     out.absorb(w)
     out.case_key = pipe.scn_digest([ctx, optstr.hex(), crlf, own_lf])
     out.nontrivial = bool(optstr)
